@@ -420,6 +420,12 @@ def _clone_e(e, vmap, refsub):
 
 
 _CUR_TAG = ['']
+_SYN = [0]
+
+
+def _syn_uid():
+    _SYN[0] += 1
+    return 'syn%d@%s' % (_SYN[0], _CUR_TAG[0])
 
 
 def _clone_s(s, vmap, refsub, ret, endlabel, newlocals, tag, tail):
@@ -434,14 +440,15 @@ def _clone_s(s, vmap, refsub, ret, endlabel, newlocals, tag, tail):
     if s.k == 'return':
         body = []
         if s.e is not None and ret is not None:
-            rv = E('var', op=ret.op, t=ret.t, dt=ret.dt, decl=ret.decl, dk='VarDecl', file=s.file, line=s.line)
+            rv = E('var', op=ret.op, t=ret.t, dt=ret.dt, decl=ret.decl, dk='VarDecl', file=s.file, line=s.line,
+                   uid=_syn_uid())
             body.append(S('expr', e=E('bin', op='=', a=[rv, _clone_e(s.e, vmap, refsub)], t=ret.t, dt=ret.dt, file=s.file,
-                                      line=s.line), file=s.file, line=s.line))
+                                      line=s.line, uid=_syn_uid()), file=s.file, line=s.line, uid=_syn_uid()))
         elif s.e is not None:
             body.append(S('expr', e=_clone_e(s.e, vmap, refsub), file=s.file, line=s.line))
         if not tail:
-            body.append(S('goto', label=endlabel, file=s.file, line=s.line))
-        return S('compound', body=body, file=s.file, line=s.line)
+            body.append(S('goto', label=endlabel, file=s.file, line=s.line, uid=_syn_uid()))
+        return S('compound', body=body, file=s.file, line=s.line, uid=_syn_uid())
     if s.k == 'decl':
         v = s.var
         nv = E('var', op=v.op, t=v.t, dt=v.dt, decl='%s@%s' % (v.decl, tag), dk='VarDecl', file=v.file, line=v.line)
@@ -627,7 +634,7 @@ def inline_new_helpers(prog, max_rounds=3):
                             # the statement itself, with the call replaced by the result
                             if ret is not None:
                                 rv = E('var', op=ret.op, t=ret.t, dt=ret.dt, decl=ret.decl, dk='VarDecl', file=c.file,
-                                       line=c.line)
+                                       line=c.line, uid=_syn_uid())
                                 s.e = _replace(s.e, c, rv)
                                 tailstmts = [s]
                             else:
